@@ -135,7 +135,11 @@ pub fn set(fm: &mut FieldMap, k: &str, v: Val) {
 pub fn debug_diff_field(a: &str, b: &str) -> String {
     let pos = a.bytes().zip(b.bytes()).position(|(x, y)| x != y).unwrap_or(a.len().min(b.len()));
     // walk back to the nearest "name: " token (field names are lower-case identifiers)
-    let head = &a[..pos.min(a.len())];
+    let mut pos = pos.min(a.len());
+    while !a.is_char_boundary(pos) {
+        pos -= 1; // the renderings may first differ inside a multi-byte character
+    }
+    let head = &a[..pos];
     let mut name = String::from("?");
     let bytes = head.as_bytes();
     let mut i = bytes.len();
